@@ -143,10 +143,10 @@ PROPERTIES['C09'] = {
       for bits, n, l, t, np in (
         ('64', 'numprop4_flags', (16, 12, 0, 0, 0, 1, 0, 1, 0, 0), 'q', 4),
         ('32', 'numprop4_flags', (16, 12, 0, 0, 0, 1, 0, 1, 0, 0), 'q', 4),
-        ('64', 'numprop4_runs2', (16, 12, 0, 0, 3, 2, 24, 2, 4, 0), 't', 4),
-        ('64', 'anyprop_flags', (16, 12, 0, 0, 0, 1, 0, 1, 0, 0), 't', None),
+        ('64', 'numprop4_runs2', (16, 12, 0, 0, 3, 2, 24, 2, 4, 0), 'x', 4),       # out of memory at 30 GB
+        ('64', 'anyprop_flags', (16, 12, 0, 0, 0, 1, 0, 1, 0, 0), 'x', None),       # out of memory at 30 GB
         ('64', 'tangents', (12, 12, 0, 0, 0, 0, 0, 0, 0, 48), 'q', 3),  # ~1000 s
-        ('64', 'runs_3_2_full', (12, 12, 0, 0, 3, 2, 24, 2, 4, 0), 't', 3))
+        ('64', 'runs_3_2_full', (12, 12, 0, 0, 3, 2, 24, 2, 4, 0), 'x', 3))        # out of memory at 30 GB
     ] + [
       dict(name='makeempty', harness='c09_ingest.cpp', entry='h_makeempty', defs={'VF_REAL_MAKEEMPTY': 1, 'VF_LENS': '0,0,0,0,0,0,0,0,0,0'}, models=['rbtree.h'], unwind={'default': 7, 'Rb_tree': 3}, recursion={'default': 2}, backends=['minisat'], timeout=900, object_bits=12, mem_gb=16,
            claim='Impl::MakeEmpty(status) from an arbitrary small Impl: status set, every container emptied, relation map cleared (the ladder obligations replace MakeEmpty by a recording stub and rely on this)', bounds='2 vertices, 2 triangles, optional relation entry, every Error value', targets=['impl.cpp Manifold::Impl::MakeEmpty'])],
